@@ -1,8 +1,465 @@
 import ObiVerif.Model.Tax
+import ObiVerif.Lemmas.Tax
+import ObiVerif.Lemmas.TaxExample
+/-!
+# C14 — taxonomy queries agree with the tree (property theorems)
+
+Every theorem is about an arbitrary taxonomy `t` (any `nodes` map, any taxids, any ranks, any alias
+table) that is well formed: `WF t root depth` — `root` is its own parent and the only such node, the
+parent of a node is a node, `depth` strictly decreases along parent links (i.e. every node reaches
+the root) — and about any fuel that is at least the length of every path (`FuelOK`); the model
+executable of the correspondence check uses the number of nodes + 1, which is enough (`fuel_nodes_suffices`).  `Anc t a x` is "`a` is an ancestor-or-self of `x`".
+-/
 namespace ObiVerif.Props.C14
 open ObiVerif.Tax
 
-theorem resolve_node (t : Taxo) (x : Nat) (n : Node) (h : t.node x = some n) : resolve t x = some x := by
+variable {t : Taxo} {root : Nat} {depth : Nat → Nat} {fuel : Nat}
+
+/-! ## 0. the well-formedness hypothesis -/
+
+/-- `WF` is what "rooted tree" means: a taxonomy with a single self-parent node `root`, closed under
+parents, in which every node reaches `root` by following parent links (`up t k x` = `k` links up from
+`x`) has a depth function that makes it `WF` -/
+theorem wellFormed_of_reaches
+    (hroot : ∃ n, t.node root = some n ∧ n.parent = root)
+    (honly : ∀ x n, t.node x = some n → n.parent = x → x = root)
+    (hpar : ∀ x n, t.node x = some n → ∃ m, t.node n.parent = some m)
+    (hreach : ∀ x n, t.node x = some n → ∃ k, up t k x = root) :
+    ∃ depth, WF t root depth := wf_of_reaches hroot honly hpar hreach
+
+/-- closure under parents is what a successful `ReindexParent` establishes -/
+theorem reindexOk_parent_node (hids : ∀ x n, t.node x = some n → x ∈ t.ids) (h : reindexOk t = true) :
+    ∀ x n, t.node x = some n → ∃ m, t.node n.parent = some m := by
+  intro x n hn
+  unfold reindexOk at h
+  have := List.all_eq_true.1 h x (hids x n hn)
+  simp only [hn] at this
+  exact Option.isSome_iff_exists.1 this
+
+/-- the fuel of the model executable (number of nodes + 1) satisfies `FuelOK` whenever `ids` lists
+every node; so does any fuel above the depth of every node -/
+theorem fuel_nodes_suffices (wf : WF t root depth) (hids : ∀ x n, t.node x = some n → x ∈ t.ids) :
+    FuelOK t (t.ids.length + 1) := fuelOK_of_ids wf hids
+
+theorem fuel_depth_suffices (wf : WF t root depth) (h : ∀ x n, t.node x = some n → depth x < fuel) :
+    FuelOK t fuel := fuelOK_of_depth wf h
+
+/-! ## 1. `TaxNode.Path` -/
+
+/-- the path of a node runs from the node itself to the root along parent links (never through a
+self loop before the root), lists exactly the ancestors-or-self of the node, each once -/
+theorem path_spec (wf : WF t root depth) (hf : FuelOK t fuel) {x : Nat} {n : Node}
+    (hx : t.node x = some n) :
+    ∃ p, path t fuel x = .ok p ∧ p.head? = some x ∧ p.getLast? = some root ∧ Linked t p ∧
+      (∀ a, a ∈ p ↔ Anc t a x) ∧ p.Nodup := by
+  obtain ⟨p, hp, ip⟩ := path_total wf hf hx
+  refine ⟨p, hp, ?_, ip.getLast wf, ip.linked, ip.mem_iff_anc, ip.nodup wf⟩
+  obtain ⟨q, rfl⟩ := ip.head; rfl
+
+/-- `Taxonomy.Path(taxid)` is the path of the node the taxid resolves to, an error for an unknown taxid -/
+theorem taxoPath_spec (id : Nat) :
+    taxoPath t fuel id = match resolve t id with
+      | none => .error .err
+      | some x => path t fuel x := rfl
+
+/-! ## 2. `TaxNode.LCA` -/
+
+theorem lca_total (wf : WF t root depth) (hf : FuelOK t fuel) {x y : Nat} {nx ny : Node}
+    (hx : t.node x = some nx) (hy : t.node y = some ny) : ∃ z, lca t fuel x y = .ok z := by
+  obtain ⟨z, _, h, _⟩ := lca_ok wf hf hx hy; exact ⟨z, h⟩
+
+theorem lca_is_common_ancestor (wf : WF t root depth) (hf : FuelOK t fuel) {x y z : Nat} {nx ny : Node}
+    (hx : t.node x = some nx) (hy : t.node y = some ny) (h : lca t fuel x y = .ok z) :
+    Anc t z x ∧ Anc t z y := by
+  obtain ⟨z', _, h', _, hc, _⟩ := lca_ok wf hf hx hy
+  rw [h] at h'; cases h'
+  exact (hc z).1 (Anc.refl z)
+
+/-- any common ancestor of `x` and `y` is an ancestor of their LCA -/
+theorem lca_deepest (wf : WF t root depth) (hf : FuelOK t fuel) {x y z : Nat} {nx ny : Node}
+    (hx : t.node x = some nx) (hy : t.node y = some ny) (h : lca t fuel x y = .ok z) :
+    ∀ a, Anc t a x → Anc t a y → Anc t a z := by
+  obtain ⟨z', _, h', _, hc, _⟩ := lca_ok wf hf hx hy
+  rw [h] at h'; cases h'
+  exact fun a h1 h2 => (hc a).2 ⟨h1, h2⟩
+
+/-- the LCA is the only taxon whose ancestors are exactly the common ancestors -/
+theorem lca_unique (wf : WF t root depth) (hf : FuelOK t fuel) {x y z : Nat} {nx ny : Node}
+    (hx : t.node x = some nx) (hy : t.node y = some ny)
+    (hz : ∀ a, Anc t a z ↔ (Anc t a x ∧ Anc t a y)) : lca t fuel x y = .ok z := by
+  obtain ⟨z', _, h', _, hc, _⟩ := lca_ok wf hf hx hy
+  have h1 : Anc t z z' := (hc z).2 ((hz z).1 (Anc.refl z))
+  have h2 : Anc t z' z := (hz z').2 ((hc z').1 (Anc.refl z'))
+  rw [h', Anc.antisymm wf h1 h2]
+
+theorem lca_comm (wf : WF t root depth) (hf : FuelOK t fuel) {x y : Nat} {nx ny : Node}
+    (hx : t.node x = some nx) (hy : t.node y = some ny) : lca t fuel x y = lca t fuel y x := by
+  obtain ⟨z, _, h, _, hc, _⟩ := lca_ok wf hf hx hy
+  rw [h]
+  exact (lca_unique wf hf hy hx (fun a => by rw [hc a]; exact And.comm)).symm
+
+theorem lca_idem (wf : WF t root depth) (hf : FuelOK t fuel) {x : Nat} {nx : Node}
+    (hx : t.node x = some nx) : lca t fuel x x = .ok x :=
+  lca_unique wf hf hx hx (fun a => by simp)
+
+/-- `LCA(LCA(x,y),z) = LCA(x,LCA(y,z))` -/
+theorem lca_assoc (wf : WF t root depth) (hf : FuelOK t fuel) {x y z : Nat} {nx ny nz : Node}
+    (hx : t.node x = some nx) (hy : t.node y = some ny) (hz : t.node z = some nz) :
+    ∃ u v w, lca t fuel x y = .ok u ∧ lca t fuel y z = .ok v ∧
+      lca t fuel u z = .ok w ∧ lca t fuel x v = .ok w := by
+  obtain ⟨u, nu, hu, hnu, cu, _⟩ := lca_ok wf hf hx hy
+  obtain ⟨v, nv, hv, hnv, cv, _⟩ := lca_ok wf hf hy hz
+  obtain ⟨w, _, hw, _, cw, _⟩ := lca_ok wf hf hnu hz
+  refine ⟨u, v, w, hu, hv, hw, ?_⟩
+  apply lca_unique wf hf hx hnv
+  intro a
+  rw [cw a, cu a, cv a]
+  exact and_assoc
+
+/-! ## 3. `IsSubCladeOf`, `TaxonAtRank`, `HasRankDefined` -/
+
+/-- `x.IsSubCladeOf(c)` answers whether `c` is an ancestor-or-self of `x` -/
+theorem isSubClade_iff_anc (wf : WF t root depth) (hf : FuelOK t fuel) {x : Nat} {n : Node}
+    (hx : t.node x = some n) (c : Nat) :
+    ∃ b, isSubCladeOf t c fuel x = .ok b ∧ (b = true ↔ Anc t c x) := by
+  obtain ⟨p, hp, ip⟩ := path_total wf hf hx
+  refine ⟨p.contains c, isSubCladeOf_eq_contains c _ _ _ hp, ?_⟩
+  rw [← ip.mem_iff_anc]; simp
+
+/-- `TaxonAtRank(r)` is the first taxon of the path carrying rank `r` (nil when there is none) -/
+theorem taxonAtRank_first (wf : WF t root depth) (hf : FuelOK t fuel) {x : Nat} {n : Node}
+    (hx : t.node x = some n) (r : String) :
+    ∃ p, path t fuel x = .ok p ∧ taxonAtRank t r fuel x = .ok (p.find? (rankIs t r)) := by
+  obtain ⟨p, hp, _⟩ := path_total wf hf hx
+  exact ⟨p, hp, taxonAtRank_eq_find r _ _ _ hp⟩
+
+/-- … in terms of the tree: the answer `y` is an ancestor-or-self of `x` of rank `r`, and no taxon of
+rank `r` lies between `x` and `y` -/
+theorem taxonAtRank_some (wf : WF t root depth) (hf : FuelOK t fuel) {x y : Nat} {n : Node}
+    (hx : t.node x = some n) (r : String) (h : taxonAtRank t r fuel x = .ok (some y)) :
+    Anc t y x ∧ rankIs t r y = true ∧ ∀ a, Anc t a x → Anc t y a → rankIs t r a = true → a = y := by
+  obtain ⟨p, hp, ip⟩ := path_total wf hf hx
+  rw [taxonAtRank_eq_find r _ _ _ hp] at h
+  have hf' : p.find? (rankIs t r) = some y := (Except.ok.inj h)
+  obtain ⟨hy, l1, l2, e, hno⟩ := List.find?_eq_some_iff_append.1 hf'
+  refine ⟨ip.anc_of_mem (by rw [e]; simp), hy, ?_⟩
+  intro a hax hya hra
+  have ha : a ∈ p := IsPath.mem_of_anc hax ip
+  rw [e] at ha
+  rcases List.mem_append.1 ha with h1 | h1
+  · have := hno a h1; simp [hra] at this
+  · have py : IsPath t y (y :: l2) := ip.suffix l1 y l2 e
+    exact Anc.antisymm wf (py.anc_of_mem h1) hya
+
+theorem taxonAtRank_none (wf : WF t root depth) (hf : FuelOK t fuel) {x : Nat} {n : Node}
+    (hx : t.node x = some n) (r : String) (h : taxonAtRank t r fuel x = .ok none) :
+    ∀ a, Anc t a x → rankIs t r a = false := by
+  obtain ⟨p, hp, ip⟩ := path_total wf hf hx
+  rw [taxonAtRank_eq_find r _ _ _ hp] at h
+  have hf' : p.find? (rankIs t r) = none := (Except.ok.inj h)
+  intro a ha
+  have := List.find?_eq_none.1 hf' a (IsPath.mem_of_anc ha ip)
+  simpa using this
+
+theorem hasRankDefined_iff (wf : WF t root depth) (hf : FuelOK t fuel) {x : Nat} {n : Node}
+    (hx : t.node x = some n) (r : String) :
+    ∃ b, hasRankDefined t r fuel x = .ok b ∧ (b = true ↔ ∃ a, Anc t a x ∧ rankIs t r a = true) := by
+  obtain ⟨p, hp, ip⟩ := path_total wf hf hx
+  refine ⟨_, hasRankDefined_eq_any r _ _ _ hp, ?_⟩
+  simp only [List.any_eq_true]
+  constructor
+  · rintro ⟨a, h1, h2⟩; exact ⟨a, ip.anc_of_mem h1, h2⟩
+  · rintro ⟨a, h1, h2⟩; exact ⟨a, IsPath.mem_of_anc h1 ip, h2⟩
+
+/-! ## 4. aliases -/
+
+/-- a live taxid resolves to itself, whatever the alias table says -/
+theorem resolve_node {x : Nat} {n : Node} (h : t.node x = some n) : resolve t x = some x := by
   simp [resolve, h]
+
+/-- `AddNewAlias(new, old)`: afterwards `old` resolves to what `new` resolved to (unless `old` is a
+live taxid, or `new` is unknown: nothing recorded), every other taxid resolves as before, and the
+tree is untouched -/
+theorem alias_resolves (new old : Nat) :
+    (addAlias t new old).node = t.node ∧
+    (∀ k, k ≠ old → resolve (addAlias t new old) k = resolve t k) ∧
+    (t.node old = none → ∀ x, resolve t new = some x → resolve (addAlias t new old) old = some x) ∧
+    (resolve t new = none → resolve (addAlias t new old) old = resolve t old) := by
+  refine ⟨addAlias_node t new old, ?_, ?_, ?_⟩
+  · intro k hk
+    unfold addAlias
+    split
+    · simp [resolve, hk]
+    · rfl
+  · intro ho x hx
+    unfold addAlias; rw [hx]; simp [resolve, ho]
+  · intro hn
+    unfold addAlias; rw [hn]
+
+/-- resolution always lands on a live node, also after any sequence of `AddNewAlias` -/
+theorem resolve_lands_on_node (t0 : Taxo) (h0 : ∀ k, t0.alias k = none) (l : List (Nat × Nat)) {id x : Nat}
+    (h : resolve (addAliases t0 l) id = some x) : ∃ m, t0.node x = some m := by
+  have ok : AliasOK t0 := by intro o n hn; rw [h0] at hn; cases hn
+  have := resolve_isNode (addAliases_aliasOK ok l) h
+  rwa [addAliases_node] at this
+
+/-! ## 5. sequence predicates and annotations -/
+
+/-- `--restrict-to-taxon c1 … ck`: fatal when one of the clades is unknown; otherwise selects exactly
+the sequences whose taxid resolves to a taxon below one of the clades -/
+theorem restrictTo_spec (wf : WF t root depth) (hf : FuelOK t fuel) (ha : AliasOK t)
+    (clades : List Nat) (tid : Nat) :
+    ((∃ c ∈ clades, resolve t c = none) → restrictTo t fuel clades tid = .error .fatal) ∧
+    ((∀ c ∈ clades, (resolve t c).isSome) →
+      ∃ b, restrictTo t fuel clades tid = .ok b ∧
+        (b = true ↔ ∃ x, resolve t tid = some x ∧ ∃ c ∈ clades, ∃ c', resolve t c = some c' ∧ Anc t c' x)) := by
+  constructor
+  · intro h; simp [restrictTo, resolveAll_fatal clades h]
+  · intro h
+    simp only [restrictTo, resolveAll_total clades h]
+    cases hr : resolve t tid with
+    | none => exact ⟨false, anyClade_unknown hr _, by simp⟩
+    | some x =>
+      obtain ⟨m, hm⟩ := resolve_isNode ha hr
+      obtain ⟨p, hp, ip⟩ := path_total wf hf hm
+      refine ⟨_, anyClade_eq hr hp _, ?_⟩
+      simp only [List.any_eq_true, List.mem_filterMap, List.contains_iff_mem, ip.mem_iff_anc]
+      constructor
+      · rintro ⟨c', ⟨c, hc, hcc⟩, hanc⟩
+        exact ⟨x, rfl, c, hc, c', hcc, hanc⟩
+      · rintro ⟨x', hx', c, hc, c', hcc, hanc⟩
+        cases hx'
+        exact ⟨c', ⟨c, hc, hcc⟩, hanc⟩
+
+/-- `--ignore-taxon` is the complement of `--restrict-to-taxon` (a sequence of unknown taxid is kept) -/
+theorem ignoreTaxon_spec (clades : List Nat) (tid : Nat) :
+    ignoreTaxon t fuel clades tid = match restrictTo t fuel clades tid with
+      | .ok b => .ok (!b)
+      | .error e => .error e := rfl
+
+/-- `--require-rank r1 … rk`: fatal when a rank is carried by no node; otherwise selects exactly the
+sequences whose taxid resolves to a taxon having an ancestor-or-self of each required rank -/
+theorem requireRanks_spec (wf : WF t root depth) (hf : FuelOK t fuel) (ha : AliasOK t)
+    (ranks : List String) (hne : ranks ≠ []) (tid : Nat) :
+    ((∃ r ∈ ranks, r ∉ rankList t) → requireRanks t fuel ranks tid = .error .fatal) ∧
+    ((∀ r ∈ ranks, r ∈ rankList t) →
+      ∃ b, requireRanks t fuel ranks tid = .ok b ∧
+        (b = true ↔ ∃ x, resolve t tid = some x ∧ ∀ r ∈ ranks, ∃ a, Anc t a x ∧ rankIs t r a = true)) := by
+  constructor
+  · rintro ⟨r, hr, hn⟩
+    have : ¬ (ranks.all fun r => (rankList t).contains r) = true := by
+      simp only [List.all_eq_true, List.contains_iff_mem]; exact fun h => hn (h r hr)
+    unfold requireRanks; rw [if_neg this]
+  · intro h
+    have : (ranks.all fun r => (rankList t).contains r) = true := by
+      simp only [List.all_eq_true, List.contains_iff_mem]; exact h
+    simp only [requireRanks, this, if_true]
+    cases hr : resolve t tid with
+    | none =>
+      refine ⟨false, ?_, by simp⟩
+      rw [allRanks_unknown hr]; cases ranks with
+      | nil => exact absurd rfl hne
+      | cons => rfl
+    | some x =>
+      obtain ⟨m, hm⟩ := resolve_isNode ha hr
+      obtain ⟨p, hp, ip⟩ := path_total wf hf hm
+      refine ⟨_, allRanks_eq hr hp _, ?_⟩
+      simp only [List.all_eq_true, List.any_eq_true]
+      constructor
+      · intro hall
+        refine ⟨x, rfl, fun r hr => ?_⟩
+        obtain ⟨a, h1, h2⟩ := hall r hr
+        exact ⟨a, ip.anc_of_mem h1, h2⟩
+      · rintro ⟨x', hx', hall⟩ r hr
+        cases hx'
+        obtain ⟨a, h1, h2⟩ := hall r hr
+        exact ⟨a, IsPath.mem_of_anc h1 ip, h2⟩
+
+/-- the composite obigrep filter `--require-rank … --restrict-to-taxon … --ignore-taxon …` is the
+conjunction of the three predicates, an option that is not given being no constraint -/
+theorem taxFilter_spec (ranks : List String) (restrict ignore : List Nat) (tid : Nat) {rr rt ig : Bool}
+    (h1 : requireRanks t fuel ranks tid = .ok rr) (h2 : restrictTo t fuel restrict tid = .ok rt)
+    (h3 : ignoreTaxon t fuel ignore tid = .ok ig) :
+    taxFilter t fuel ranks restrict ignore tid =
+      .ok (rr && (restrict.isEmpty || rt) && (ignore.isEmpty || ig)) := by
+  unfold requireRanks at h1
+  split at h1
+  · rename_i hranks
+    unfold restrictTo at h2
+    split at h2
+    · cases h2
+    · rename_i cs hcs
+      unfold ignoreTaxon restrictTo at h3
+      split at h3
+      · rename_i b hb
+        split at hb
+        · cases hb
+        · rename_i is his
+          cases h3
+          have e1 : cs.isEmpty = restrict.isEmpty := by
+            have := resolveAll_length _ _ hcs
+            cases cs <;> cases restrict <;> simp_all
+          have e2 : is.isEmpty = ignore.isEmpty := by
+            have := resolveAll_length _ _ his
+            cases is <;> cases ignore <;> simp_all
+          unfold taxFilter
+          simp only [hranks, hcs, his, h1, e1, e2, Bool.not_true, Bool.false_eq_true, if_false]
+          cases rr <;> cases hre : restrict.isEmpty <;> cases rt <;> cases hie : ignore.isEmpty <;>
+            simp_all
+      · rename_i e he
+        cases h3
+  · cases h1
+
+theorem taxFilter_fatal (ranks : List String) (restrict ignore : List Nat) (tid : Nat)
+    (h : (∃ r ∈ ranks, r ∉ rankList t) ∨ (∃ c ∈ restrict, resolve t c = none) ∨ (∃ c ∈ ignore, resolve t c = none)) :
+    taxFilter t fuel ranks restrict ignore tid = .error .fatal := by
+  unfold taxFilter
+  by_cases hr : (ranks.all fun r => (rankList t).contains r) = true
+  · simp only [hr, Bool.not_true, Bool.false_eq_true, if_false]
+    rcases h with ⟨r, h1, h2⟩ | h | h
+    · simp only [List.all_eq_true, List.contains_iff_mem] at hr
+      exact absurd (hr r h1) h2
+    · rw [resolveAll_fatal restrict h]
+    · cases hc : resolveAll t restrict with
+      | error e =>
+        by_cases hx : ∃ c ∈ restrict, resolve t c = none
+        · rw [resolveAll_fatal restrict hx] at hc; cases hc; rfl
+        · have : ∀ c ∈ restrict, (resolve t c).isSome := by
+            intro c hc'
+            cases h' : resolve t c with
+            | none => exact absurd ⟨c, hc', h'⟩ hx
+            | some _ => rfl
+          rw [resolveAll_total restrict this] at hc; cases hc
+      | ok cs => simp only [resolveAll_fatal ignore h]
+  · have : (ranks.all fun r => (rankList t).contains r) = false := Bool.eq_false_iff.2 hr
+    simp only [this, Bool.not_false, if_true]
+
+/-- `IsSubCladeOfSlot(key)`: false unless both the attribute and the sequence taxid resolve -/
+theorem inCladeSlot_spec (slot : Option Nat) (tid : Nat) :
+    inCladeSlot t fuel slot tid = match slot with
+      | none => .ok false
+      | some c => match resolve t c, resolve t tid with
+        | some c, some x => isSubCladeOf t c fuel x
+        | _, _ => .ok false := rfl
+
+/-- `SetTaxonAtRank` annotates nothing for an unknown taxid, else the answer of `TaxonAtRank` on the
+resolved taxon (`-1` for nil), which `taxonAtRank_first/_some/_none` characterise -/
+theorem setTaxonAtRank_spec (rank : String) (tid : Nat) :
+    setTaxonAtRank t fuel rank tid = match resolve t tid with
+      | none => .ok none
+      | some x => match taxonAtRank t rank fuel x with
+        | .ok r => .ok (some r)
+        | .error e => .error e := rfl
+
+/-! ## 6. `Taxonomy.LCA(sequence, 1.0)` — LCA of the taxids merged in a sequence, zero error tolerance -/
+
+/-- on a non-empty `merged_taxid` map of known taxids with positive counts, the weighted LCA at
+threshold 1.0 is the left fold of `TaxNode.LCA` over the taxa present (as `TaxonomicDistribution`
+lists them), i.e. the deepest common ancestor of all of them; it does not depend on the weights -/
+theorem weightedLca_threshold_one (wf : WF t root depth) (hf : FuelOK t fuel) (ha : AliasOK t)
+    (kws : List (Nat × Nat)) (hne : kws ≠ [])
+    (hr : ∀ kw ∈ kws, (resolve t kw.1).isSome) (hw : ∀ kw ∈ kws, 0 < kw.2) :
+    ∃ x w rest z, taxDist t kws [] = .ok ((x, w) :: rest) ∧
+      lcaFold t fuel x (rest.map (·.1)) = .ok z ∧
+      weightedLca t fuel kws = .ok (some z) ∧
+      (∀ a, Anc t a z ↔ ∀ kw ∈ kws, ∃ y, resolve t kw.1 = some y ∧ Anc t a y) := by
+  obtain ⟨dist, h1, h2, h3⟩ := taxDist_ok kws [] hr
+  have hpos : ∀ d ∈ dist, 0 < d.2 := h3 (by intro d hd; simp at hd) hw
+  have hnode : ∀ d ∈ dist, ∃ n, t.node d.1 = some n := by
+    intro d hd
+    have : d.1 ∈ dist.map (·.1) := List.mem_map.2 ⟨d, hd, rfl⟩
+    rcases (h2 d.1).1 this with h | ⟨kw, _, hk⟩
+    · simp at h
+    · exact resolve_isNode ha hk
+  cases dist with
+  | nil =>
+    cases kws with
+    | nil => exact absurd rfl hne
+    | cons kw r =>
+      obtain ⟨y, hy⟩ := Option.isSome_iff_exists.1 (hr kw (by simp))
+      have := (h2 y).2 (Or.inr ⟨kw, by simp, hy⟩)
+      simp at this
+  | cons d rest =>
+    obtain ⟨x, w⟩ := d
+    obtain ⟨z, hz, hwl, hc⟩ := wlcaNodes_eq_fold wf hf x w rest hnode hpos
+    refine ⟨x, w, rest, z, h1, hz, by simp [weightedLca, h1, hwl], ?_⟩
+    intro a
+    rw [hc a]
+    constructor
+    · intro h kw hkw
+      obtain ⟨y, hy⟩ := Option.isSome_iff_exists.1 (hr kw hkw)
+      have : y ∈ ((x, w) :: rest).map (·.1) := (h2 y).2 (Or.inr ⟨kw, hkw, hy⟩)
+      obtain ⟨d, hd, rfl⟩ := List.mem_map.1 this
+      exact ⟨d.1, hy, h d hd⟩
+    · intro h d hd
+      have : d.1 ∈ ((x, w) :: rest).map (·.1) := List.mem_map.2 ⟨d, hd, rfl⟩
+      rcases (h2 d.1).1 this with h' | ⟨kw, hkw, hk⟩
+      · simp at h'
+      · obtain ⟨y, hy, hay⟩ := h kw hkw
+        rw [hk] at hy; cases hy; exact hay
+
+/-- an unknown taxid in the map is `log.Panicf` -/
+theorem weightedLca_unknown (kws : List (Nat × Nat)) (h : ∃ kw ∈ kws, resolve t kw.1 = none) :
+    weightedLca t fuel kws = .error .panic := by
+  simp [weightedLca, taxDist_unknown kws [] h]
+
+/-- an empty map gives the nil taxon -/
+theorem weightedLca_empty : weightedLca t fuel [] = .ok none := by
+  cases fuel <;> simp [weightedLca, taxDist, wlcaNodes, mkItems, wloop, mkLevels, argMax, firstAnswer]
+
+/-! ## 7. the hypotheses are satisfiable: a concrete taxonomy (non-vacuity; the `example`s that compute
+are tests of the model on this one taxonomy, not proofs of the property)
+
+```
+1 (no rank) ── 2 (genus) ── 3 (species)
+            │            └─ 4 (species)
+            └─ 5 (family)            merged: 9 -> 3, 10 -> 9
+```
+-/
+
+example : ∃ p, path exT 6 3 = .ok p ∧ p.head? = some 3 ∧ p.getLast? = some 1 ∧ Linked exT p ∧
+    (∀ a, a ∈ p ↔ Anc exT a 3) ∧ p.Nodup :=
+  path_spec exT_wf exT_fuel (x := 3) (by rw [exT_node]; rfl)
+
+example : Anc exT 2 3 ∧ Anc exT 2 4 :=
+  lca_is_common_ancestor exT_wf exT_fuel (x := 3) (y := 4) (z := 2)
+    (by rw [exT_node]; rfl) (by rw [exT_node]; rfl) rfl
+
+example : lca exT 6 3 5 = .ok 1 ∧ lca exT 6 3 2 = .ok 2 ∧ lca exT 6 4 4 = .ok 4 := ⟨rfl, rfl, rfl⟩
+example : path exT 6 4 = .ok [4, 2, 1] ∧ taxoPath exT 6 10 = .ok [3, 2, 1] ∧ taxoPath exT 6 77 = .error .err := ⟨rfl, rfl, rfl⟩
+example : isSubCladeOf exT 2 6 3 = .ok true ∧ isSubCladeOf exT 5 6 3 = .ok false := ⟨rfl, rfl⟩
+example : taxonAtRank exT "genus" 6 3 = .ok (some 2) ∧ taxonAtRank exT "family" 6 3 = .ok none := ⟨rfl, rfl⟩
+example : resolve exT 10 = some 3 ∧ resolve exT 3 = some 3 ∧ resolve exT 77 = none := by decide
+example : restrictTo exT 6 [5, 2] 9 = .ok true ∧ ignoreTaxon exT 6 [2] 5 = .ok true ∧
+    restrictTo exT 6 [77] 3 = .error .fatal ∧ requireRanks exT 6 ["genus", "species"] 10 = .ok true := ⟨rfl, rfl, rfl, rfl⟩
+example : weightedLca exT 6 [(3, 2), (10, 2), (4, 1)] = .ok (some 2) ∧ weightedLca exT 6 [(3, 1), (5, 7)] = .ok (some 1) ∧
+    weightedLca exT 6 [(9, 4)] = .ok (some 3) ∧ weightedLca exT 6 [(77, 1)] = .error .panic := ⟨rfl, rfl, rfl, rfl⟩
+
+example : ∃ x w rest z, taxDist exT [(3, 2), (10, 2), (4, 1)] [] = .ok ((x, w) :: rest) ∧
+    lcaFold exT 6 x (rest.map (·.1)) = .ok z ∧ weightedLca exT 6 [(3, 2), (10, 2), (4, 1)] = .ok (some z) ∧
+    (∀ a, Anc exT a z ↔ ∀ kw ∈ [(3, 2), (10, 2), (4, 1)], ∃ y, resolve exT kw.1 = some y ∧ Anc exT a y) :=
+  weightedLca_threshold_one exT_wf exT_fuel exT_aliasOK _ (by simp) (by decide) (by decide)
+
+example : FuelOK exT (exT.ids.length + 1) :=
+  fuel_nodes_suffices exT_wf (by
+    intro x n h; rw [exT_node] at h
+    have : exT.ids = [1, 2, 3, 4, 5] := rfl
+    rw [this]; unfold exNode at h; split at h <;> simp_all)
+
+example : ∃ u v w, lca exT 6 3 4 = .ok u ∧ lca exT 6 4 5 = .ok v ∧ lca exT 6 u 5 = .ok w ∧ lca exT 6 3 v = .ok w :=
+  lca_assoc exT_wf exT_fuel (x := 3) (y := 4) (z := 5)
+    (by rw [exT_node]; rfl) (by rw [exT_node]; rfl) (by rw [exT_node]; rfl)
+
+example : Anc exT 2 3 ∧ rankIs exT "genus" 2 = true ∧
+    ∀ a, Anc exT a 3 → Anc exT 2 a → rankIs exT "genus" a = true → a = 2 :=
+  taxonAtRank_some exT_wf exT_fuel (x := 3) (by rw [exT_node]; rfl) "genus" rfl
+
+example : ∃ b, restrictTo exT 6 [5, 2] 9 = .ok b ∧
+    (b = true ↔ ∃ x, resolve exT 9 = some x ∧ ∃ c ∈ [5, 2], ∃ c', resolve exT c = some c' ∧ Anc exT c' x) :=
+  (restrictTo_spec exT_wf exT_fuel exT_aliasOK [5, 2] 9).2 (by decide)
+
+example : ∃ b, requireRanks exT 6 ["genus", "species"] 10 = .ok b ∧
+    (b = true ↔ ∃ x, resolve exT 10 = some x ∧ ∀ r ∈ ["genus", "species"], ∃ a, Anc exT a x ∧ rankIs exT r a = true) :=
+  (requireRanks_spec exT_wf exT_fuel exT_aliasOK ["genus", "species"] (by simp) 10).2 (by decide)
 
 end ObiVerif.Props.C14
